@@ -13,7 +13,17 @@ class VerifyMixin:
     ieee_checks = True
 
     def make_generator(self, finfo, self_val, args, kwargs, st, line):
-        raise EngineError(f'generator function {finfo.qualname} called without contract')
+        """Calling a generator function does not run it: a generator value is returned and the body is
+        fused with the consuming for-loop (each `yield v` runs the loop body with the target bound to v)."""
+        env = self.bind_params(finfo.node, self_val, args, kwargs, st, finfo)
+        self.resolve_defaults(env, st, finfo.module)
+        env['$mod'] = finfo.module
+        env['$func'] = finfo
+        if self_val is not None:
+            env['$self'] = self_val
+        self.tag_loops(finfo)
+        self.inlined.add(finfo.qualname + ' (generator, fused with its consumer loop)')
+        return [ok(('generator', finfo, env), st)]
 
     def exec_yield(self, node, st):
         """Inside a generator under root verification: a yield is an event carrying the value."""
@@ -30,18 +40,59 @@ class VerifyMixin:
             if r.kind == 'raise':
                 out.append((('raise', r.val), r.st))
                 continue
-            r.st.trace.append(Event('yield', 'yield', args=(r.val,), line=node.lineno, held=r.st.held,
-                                    extra={'env': dict(r.st.env)}))
-            out.append((NORMAL, r.st))
+            s1 = r.st
+            s1.trace.append(Event('yield', 'yield', args=(r.val,), line=node.lineno, held=s1.held,
+                                  extra={'env': dict(s1.env)}))
+            fused = s1.env.get('$yield_to')
+            if fused is None:
+                out.append((NORMAL, s1))
+                continue
+            # switch to the consumer frame: run `target = value; loop body`
+            s1.env, s1.stack[-1] = s1.stack[-1], s1.env
+            for o, s2 in self.assign(fused.target, r.val, s1):
+                res = [(o, s2)] if o[0] != 'normal' else self.exec_block(fused.body, s2)
+                for bo, s3 in res:
+                    s3.env, s3.stack[-1] = s3.stack[-1], s3.env   # back to the generator frame
+                    if bo[0] in ('normal', 'continue'):
+                        out.append((NORMAL, s3))
+                    elif bo[0] == 'raise':
+                        out.append((('raise_consumer', bo[1]), s3))
+                    else:
+                        raise EngineError('break/return inside a loop over a fused generator')
         return out
 
     def verify_contract(self, c):
-        """Generate all obligations for contract c. Returns dict with stats."""
+        """All obligations for contract c (once per combination of parameter-type alternatives)."""
+        alts = getattr(c, 'param_alternatives', None)
+        if not alts:
+            return self._verify_contract(c, '')
+        import itertools
+        names = sorted(alts)
+        res = None
+        for combo in itertools.product(*[alts[n] for n in names]):
+            saved = dict(c.params)
+            label = ','.join(lbl for lbl, _ in combo)
+            for n, (lbl, t) in zip(names, combo):
+                c.params[n] = t
+            try:
+                r = self._verify_contract(c, f'[{label}]')
+            finally:
+                c.params = saved
+            if res is None:
+                res = r
+            else:
+                res['paths'] += r['paths']
+                res['normal_paths'] += r['normal_paths']
+                res['obligations'] += r['obligations']
+        return res
+
+    def _verify_contract(self, c, suffix):
         finfo = self.repo.func(c.target)
         if finfo is None:
             raise EngineError(f'contract target {c.target} does not exist')
         self.cur_root = c.target.split(':', 1)[1] if c.target.startswith('s3transfer.') else c.target
         self.cur_root = c.target.replace('s3transfer.', '').replace(':', '.') if not c.target.startswith('s3transfer:') else c.target.replace('s3transfer:', 'legacy.')
+        self.cur_root += suffix
         self.cur_props = c.props
         self.cur_root_target_inline = c.target
         self.cur_inline_callees = c.inline_callees
